@@ -5,6 +5,7 @@ import TeraModel.Props.C08
 import TeraModel.Lemmas.PipelineT
 import TeraModel.Lemmas.IndexUtf8
 import TeraModel.Lemmas.PipelineWire
+import TeraModel.Lemmas.PipelineVerify
 namespace Tera.Pipeline
 open Tera Tera.Lexer Tera.WsFilter
 
@@ -160,5 +161,236 @@ theorem render_text (cfg : Config) (name : String) (cs : List Char) (depth steps
       Vm.run, Vm.interp, Vm.runLoop, textCode, hcs, Vm.step, Vm.State.write, Vm.outcomeOf, Vm.entryState,
       Vm.State.fresh]
     cases steps <;> simp [Vm.runLoop, Vm.outcomeOf]
+
+/-! ### literal text through compiler, optimiser and decoding -/
+
+section texts
+open Tera.Compiler Tera.Optimize
+
+/-- payloads of the `WriteText` instructions of a compiled chunk, in order -/
+def ctexts (c : Code) : List String :=
+  c.filterMap fun e => match e.1 with | .writeText s => some s | _ => none
+
+@[simp] theorem ctexts_nil : ctexts [] = [] := rfl
+@[simp] theorem ctexts_append (a b : Code) : ctexts (a ++ b) = ctexts a ++ ctexts b := by
+  simp [ctexts, List.filterMap_append]
+theorem ctexts_cons (e : CEntry) (b : Code) : ctexts (e :: b) = ctexts [e] ++ ctexts b := by
+  rw [← List.singleton_append, ctexts_append]
+
+mutual
+/-- the literal texts `compile_expr` emits inline for an expression (only component-call bodies
+carry any) -/
+def exprTexts : Expr → List String
+  | .const _ => []
+  | .map entries => mapTexts entries
+  | .array items => arrayTexts items
+  | .var _ => []
+  | .getAttr e _ _ => exprTexts e
+  | .getItem e s _ => exprTexts e ++ exprTexts s
+  | .slice e start stop step _ => exprTexts e ++ optTexts start ++ optTexts stop ++ optTexts step
+  | .filter e _ kwargs => exprTexts e ++ kwargsTexts kwargs
+  | .test e _ kwargs => exprTexts e ++ kwargsTexts kwargs
+  | .ternary c t f => exprTexts c ++ exprTexts t ++ exprTexts f
+  | .listComprehension e _ _ target cond => exprTexts target ++ optTexts cond ++ exprTexts e
+  | .componentCall _ kwargs body selfClosing =>
+    (if selfClosing then [] else nodesTexts body) ++ mapTexts kwargs
+  | .functionCall _ kwargs => kwargsTexts kwargs
+  | .unary _ e => exprTexts e
+  | .binary op l r =>
+    match op with
+    | .Is | .Pipe => []
+    | _ => exprTexts l ++ exprTexts r
+def optTexts : Option Expr → List String
+  | some e => exprTexts e
+  | none => []
+def kwargsTexts : List (String × Expr) → List String
+  | [] => []
+  | (_, v) :: rest => exprTexts v ++ kwargsTexts rest
+def arrayTexts : List ArrayEntry → List String
+  | [] => []
+  | .item e :: rest => exprTexts e ++ arrayTexts rest
+  | .spread e :: rest => exprTexts e ++ arrayTexts rest
+def mapTexts : List MapEntry → List String
+  | [] => []
+  | .keyValue _ v :: rest => exprTexts v ++ mapTexts rest
+  | .spread e :: rest => exprTexts e ++ mapTexts rest
+def filtersTexts : List Expr → List String
+  | [] => []
+  | .filter _ _ kwargs :: rest => kwargsTexts kwargs ++ filtersTexts rest
+  | _ :: rest => filtersTexts rest
+/-- the literal texts of a node that go into the CURRENT chunk, in order: a `{% block %}` body goes
+to a chunk of its own -/
+def nodeTexts : Node → List String
+  | .content text => [text]
+  | .expression e => exprTexts e
+  | .set _ value _ => exprTexts value
+  | .blockSet _ filters body _ => nodesTexts body ++ filtersTexts filters
+  | .include _ => []
+  | .block _ _ => []
+  | .forLoop _ _ target body elseBody => exprTexts target ++ nodesTexts body ++ nodesTexts elseBody
+  | .break => []
+  | .continue => []
+  | .if c body falseBody => exprTexts c ++ nodesTexts body ++ nodesTexts falseBody
+  | .filterSection _ kwargs body => nodesTexts body ++ kwargsTexts kwargs
+def nodesTexts : List Node → List String
+  | [] => []
+  | n :: rest => nodeTexts n ++ nodesTexts rest
+end
+
+/-- the text an instruction writes literally -/
+def itext : CInstr → List String
+  | .writeText s => [s]
+  | _ => []
+
+@[simp] theorem ctexts_cons' (e : CEntry) (rest : Code) : ctexts (e :: rest) = itext e.1 ++ ctexts rest := by
+  obtain ⟨i, b⟩ := e
+  cases i <;> rfl
+@[simp] theorem itext_mapBuild (m : List MapEntry) : itext (mapBuild m) = [] := by
+  unfold mapBuild; split <;> rfl
+@[simp] theorem itext_arrayBuild (m : List ArrayEntry) : itext (arrayBuild m) = [] := by
+  unfold arrayBuild; split <;> rfl
+@[simp] theorem itext_setInstr (n : String) (g : Bool) : itext (setInstr n g) = [] := by
+  unfold setInstr; split <;> rfl
+@[simp] theorem itext_unary (op : UnaryOperator) : itext (unaryInstr op) = [] := by
+  cases op <;> rfl
+@[simp] theorem itext_ite (c : Prop) [Decidable c] (a b : CInstr) :
+    itext (if c then a else b) = if c then itext a else itext b := by
+  split <;> rfl
+
+theorem ctexts_keyStore (k : Option String) : ctexts (keyStore k) = [] := by cases k <;> rfl
+
+set_option maxHeartbeats 1600000 in
+theorem texts_aux :
+    (∀ base loop e, ctexts (exprCode base loop e) = exprTexts e) ∧
+    (∀ base loop ns, ctexts (nodesCode base loop ns) = nodesTexts ns) ∧
+    (∀ base loop n, ctexts (nodeCode base loop n) = nodeTexts n) ∧
+    (∀ base loop k, ctexts (kwargsCode base loop k) = kwargsTexts k) ∧
+    (∀ base loop f, ctexts (filtersCode base loop f) = filtersTexts f) ∧
+    (∀ base loop o, ctexts (condCode base loop o) = optTexts o) ∧
+    (∀ base loop (dflt : CInstr) o, (∀ s, dflt ≠ .writeText s) → ctexts (optExprCode base loop dflt o) = optTexts o) ∧
+    (∀ base loop a, ctexts (arrayItemsCode base loop a) = arrayTexts a) ∧
+    (∀ base loop m, ctexts (mapItemsCode base loop m) = mapTexts m) := by
+  apply exprCode.mutual_induct
+    (motive_1 := fun base loop e => ctexts (exprCode base loop e) = exprTexts e)
+    (motive_2 := fun base loop ns => ctexts (nodesCode base loop ns) = nodesTexts ns)
+    (motive_3 := fun base loop n => ctexts (nodeCode base loop n) = nodeTexts n)
+    (motive_4 := fun base loop k => ctexts (kwargsCode base loop k) = kwargsTexts k)
+    (motive_5 := fun base loop f => ctexts (filtersCode base loop f) = filtersTexts f)
+    (motive_6 := fun base loop o => ctexts (condCode base loop o) = optTexts o)
+    (motive_7 := fun base loop dflt o => (∀ s, dflt ≠ .writeText s) → ctexts (optExprCode base loop dflt o) = optTexts o)
+    (motive_8 := fun base loop a => ctexts (arrayItemsCode base loop a) = arrayTexts a)
+    (motive_9 := fun base loop m => ctexts (mapItemsCode base loop m) = mapTexts m)
+  all_goals intros
+  all_goals simp only [exprCode, nodesCode, nodeCode, kwargsCode, filtersCode, condCode, optExprCode,
+    arrayItemsCode, mapItemsCode, exprTexts, nodesTexts, nodeTexts, kwargsTexts, filtersTexts,
+    optTexts, arrayTexts, mapTexts] at *
+  all_goals (try split)
+  all_goals (try simp_all (config := { zetaDelta := true }) [ctexts_keyStore, sp, ns])
+  all_goals (try simp_all [itext])
+  all_goals (simp [nodesTexts])
+
+theorem texts_nodes (ns : List Node) (base : Nat) (loop : Option Nat) :
+    ctexts (nodesCode base loop ns) = nodesTexts ns := texts_aux.2.1 base loop ns
+
+/-! ### the optimiser and the decoding keep the texts, in order -/
+
+/-- payloads of the `WriteText` instructions of a stored chunk, in order -/
+def vtexts (code : List Vm.VEntry) : List (List Char) :=
+  code.flatMap fun e => match e.1 with | .writeText t => [t] | _ => []
+
+/-- the text the instruction `x` of an encoded chunk stands for -/
+def etext (code : Code) (x : Instr) : List (List Char) :=
+  match decodeInstr code x with
+  | some (.writeText t) => [t]
+  | _ => []
+
+def etexts (code : Code) (l : List Entry) : List (List Char) := l.flatMap fun e => etext code e.1
+
+theorem vtexts_decodeAll (code : Code) : ∀ (r : List Entry) (vs : List Vm.VEntry),
+    decodeAll code r = some vs → vtexts vs = etexts code r := by
+  intro r
+  induction r with
+  | nil => intro vs h; simp only [decodeAll, Option.some.injEq] at h; subst h; rfl
+  | cons x rest ih =>
+    intro vs h
+    simp only [decodeAll, decodeEntry] at h
+    cases h1 : decodeInstr code x.1 with
+    | none => simp [h1] at h
+    | some v =>
+      cases h2 : decodeAll code rest with
+      | none => simp [h1, h2] at h
+      | some vs' =>
+        simp only [h1, h2, Option.map_some, Option.some.injEq] at h
+        subst h
+        simp only [vtexts, etexts, List.flatMap_cons, etext, h1] at ih ⊢
+        rw [ih vs' h2]
+        cases v <;> rfl
+
+theorem vinstr_text (ci : CInstr) :
+    (match vinstr ci with | some (.writeText t) => [t] | _ => []) = (itext ci).map String.toList := by
+  cases ci <;> first | rfl | (rename_i op; cases op <;> rfl)
+
+theorem etexts_encodeFrom (code : Code) : ∀ (rest : Code) (i : Nat),
+    (∀ k e, rest[k]? = some e → code[i + k]? = some e) →
+    etexts code (encodeFrom i rest) = (ctexts rest).map String.toList := by
+  intro rest
+  induction rest with
+  | nil => intro i _; rfl
+  | cons e tl ih =>
+    intro i h
+    simp only [encodeFrom, etexts, List.flatMap_cons, etext, ctexts_cons', List.map_append]
+    rw [decode_encodeInstr code i e (by simpa using h 0 e rfl), vinstr_text]
+    congr 1
+    exact ih (i + 1) (fun k e' hk => by
+      have := h (k + 1) e' (by simpa using hk)
+      rwa [Nat.add_assoc, Nat.add_comm 1 k])
+
+theorem etexts_encode (code : Code) : etexts code (encode code) = (ctexts code).map String.toList :=
+  etexts_encodeFrom code code 0 (fun k e h => by simpa using h)
+
+theorem etext_mapTarget (code : Code) (f : Nat → Nat) (i : Instr) :
+    etext code (i.mapTarget f) = etext code i := by
+  cases i <;> rfl
+
+theorem etexts_attrs (code : Code) (taken : List (String × List Span)) :
+    (taken.map attrEntry).flatMap (fun e => etext code e.1) = [] := by
+  induction taken with
+  | nil => rfl
+  | cons a rest ih => simp only [List.map_cons, List.flatMap_cons, ih]; rfl
+
+theorem etexts_optimized (code : Code) (r : List Entry) (h : optimize (encode code) = .ok r) :
+    etexts code r = etexts code (encode code) := by
+  rw [C09.optimize_ok _ _ h]
+  have hp := C09.groups_parsed (encode code)
+  conv_rhs => rw [← hp.concat]
+  simp only [etexts, List.flatMap_map, List.flatMap_assoc]
+  apply List.flatMap_congr
+  intro g hg
+  cases hp.shapes g hg with
+  | keep e => simp only [remapTotal, List.flatMap_cons, List.flatMap_nil, List.append_nil, etext_mapTarget]
+  | path n s taken _ _ =>
+    simp only [remapTotal, Instr.mapTarget, List.flatMap_cons, etexts_attrs]
+    rfl
+  | write n s w taken _ =>
+    simp only [remapTotal, Instr.mapTarget, List.flatMap_cons, List.flatMap_append, etexts_attrs,
+      List.flatMap_nil]
+    rfl
+
+/-- **the stored chunk writes exactly the texts of the compiled chunk, in order** -/
+theorem storeChunk_texts (name : String) (code : Code) (ch : Vm.Chunk)
+    (h : storeChunk name code = .ok ch) : vtexts ch.code = (ctexts code).map String.toList := by
+  unfold storeChunk at h
+  cases hopt : optimize (encode code) with
+  | panic s => simp [hopt] at h
+  | ok r =>
+    simp only [hopt] at h
+    cases hdec : decodeAll code r with
+    | none => simp [hdec] at h
+    | some vs =>
+      simp only [hdec, Stored.ok.injEq] at h
+      subst h
+      rw [vtexts_decodeAll code r vs hdec, etexts_optimized code r hopt, etexts_encode]
+
+end texts
 
 end Tera.Pipeline
